@@ -93,93 +93,51 @@ theorem good_exchange_plain (kind : MethodKind) (body : Body) (ctype : CType) (t
   · rfl
   · rfl
 
-theorem good_unary_coded (kind : MethodKind) (body : Body) (ctype : CType) (token : Token) (beh : Behaviour) :
-    good ⟨.unary, kind, body, ctype, .supported, .within, .ok, token, beh⟩ = true := by
-  cases ctype
-  · cases kind
-    · cases body
-      · cases beh <;> rfl
-      · rename_i e; cases e <;> rfl
-      · rename_i m; cases m <;> rfl
-      · rename_i d; cases d <;> rfl
-      · cases beh <;> rfl
-      · rename_i e; cases e <;> rfl
-    · rfl
-    · rfl
-    · rfl
-  · rfl
-  · rfl
-  · rfl
-
-theorem good_init_coded (kind : MethodKind) (body : Body) (ctype : CType) (token : Token) (beh : Behaviour) :
-    good ⟨.init, kind, body, ctype, .supported, .within, .ok, token, beh⟩ = true := by
-  cases ctype
-  · cases kind
-    · rfl
-    · cases body
-      · cases beh <;> rfl
-      · rename_i e; cases e <;> rfl
-      · rename_i m; cases m <;> rfl
-      · rename_i d; cases d <;> rfl
-      · cases beh <;> rfl
-      · rename_i e; cases e <;> rfl
-    · cases body
-      · cases beh <;> rfl
-      · rename_i e; cases e <;> rfl
-      · rename_i m; cases m <;> rfl
-      · rename_i d; cases d <;> rfl
-      · cases beh <;> rfl
-      · rename_i e; cases e <;> rfl
-    · rfl
-  · rfl
-  · rfl
-  · rfl
-
-theorem good_exchange_coded (kind : MethodKind) (body : Body) (ctype : CType) (token : Token) (beh : Behaviour) :
-    good ⟨.exchange, kind, body, ctype, .supported, .within, .ok, token, beh⟩ = true := by
-  cases ctype
-  · cases kind
-    · rfl
-    · cases body
-      · cases token <;> first | rfl | (cases beh <;> rfl)
-      · rename_i e; cases e <;> rfl
-      · cases token <;> first | rfl | (cases beh <;> rfl)
-      · cases token <;> first | rfl | (cases beh <;> rfl)
-      · cases token <;> rfl
-      · cases token <;> first | rfl | (cases beh <;> rfl)
-    · cases body
-      · cases token <;> first | rfl | (cases beh <;> rfl)
-      · rename_i e; cases e <;> rfl
-      · cases token <;> first | rfl | (cases beh <;> rfl)
-      · rename_i d; cases d <;> cases token <;> rfl
-      · cases token <;> rfl
-      · cases token <;> first | rfl | (cases beh <;> rfl)
-    · rfl
-  · rfl
-  · rfl
-  · rfl
+/-- a request that the middleware chain lets through is answered like the same request sent uncompressed and well
+    below the size cap: neither the chain nor the spec looks at anything else once size, coding and credentials pass -/
+theorem good_passing (route : Route) (kind : MethodKind) (body : Body) (ctype : CType) (token : Token) (beh : Behaviour)
+    (size : Size) (cenc : CEnc) (hs : size = .within ∨ size = .atCap)
+    (hc : cenc = .none ∨ cenc = .supported ∨ ∃ c, cenc = .atCap c) :
+    good ⟨route, kind, body, ctype, cenc, size, .ok, token, beh⟩
+      = good ⟨route, kind, body, ctype, .none, .within, .ok, token, beh⟩ := by
+  rcases hs with rfl | rfl <;> rcases hc with rfl | rfl | ⟨c, rfl⟩ <;> first | rfl | (cases c <;> rfl)
 
 theorem good_all (rq : Req) : good rq = true := by
   obtain ⟨route, kind, body, ctype, cenc, size, auth, token, beh⟩ := rq
   -- middleware: size cap, content encoding, authentication (registration order)
+  have plain : good ⟨route, kind, body, ctype, .none, .within, .ok, token, beh⟩ = true := by
+    cases route
+    · exact good_unary_plain _ _ _ _ _
+    · exact good_init_plain _ _ _ _ _
+    · exact good_exchange_plain _ _ _ _ _
   cases size
   · cases cenc
     · cases auth
-      · cases route
-        · exact good_unary_plain _ _ _ _ _
-        · exact good_init_plain _ _ _ _ _
-        · exact good_exchange_plain _ _ _ _ _
+      · exact plain
       · rfl
     · cases auth
-      · cases route
-        · exact good_unary_coded _ _ _ _ _
-        · exact good_init_coded _ _ _ _ _
-        · exact good_exchange_coded _ _ _ _ _
+      · rw [good_passing _ _ _ _ _ _ _ _ (Or.inl rfl) (Or.inr (Or.inl rfl))]; exact plain
       · rfl
     · rfl
     · rfl
     · rfl
+    · cases auth
+      · rw [good_passing _ _ _ _ _ _ _ _ (Or.inl rfl) (Or.inr (Or.inr ⟨_, rfl⟩))]; exact plain
+      · rename_i c; cases c <;> rfl
   · rfl
+  · cases cenc
+    · cases auth
+      · rw [good_passing _ _ _ _ _ _ _ _ (Or.inr rfl) (Or.inl rfl)]; exact plain
+      · rfl
+    · cases auth
+      · rw [good_passing _ _ _ _ _ _ _ _ (Or.inr rfl) (Or.inr (Or.inl rfl))]; exact plain
+      · rfl
+    · rfl
+    · rfl
+    · rfl
+    · cases auth
+      · rw [good_passing _ _ _ _ _ _ _ _ (Or.inr rfl) (Or.inr (Or.inr ⟨_, rfl⟩))]; exact plain
+      · rename_i c; cases c <;> rfl
 
 theorem specStatus_allowed (rq : Req) : Allowed rq (specStatus rq) := by
   unfold Allowed specStatus
